@@ -1,9 +1,13 @@
 ------------------------------- MODULE Lattice -------------------------------
-(* Exact geometry of boxes on a half-unit lattice.  A box is                    *)
+(* Exact geometry of boxes on a half-unit lattice (properties C08, C15, C19; C14 *)
+(* uses Inter16 / Area16 through Nms.tla).  A box is the record                  *)
 (*   [x, y, w, h, k] : centre (x/2, y/2), width w/2, height h/2 (w, h > 0),      *)
-(*   k = angle in quarter turns (any integer; "none" is modelled as k = 0 with   *)
-(*   flag noAngle in the emitted record).  All quantities below are integers:    *)
-(*   areas in quarter-units (x4), squared lengths in quarter-units.              *)
+(*   k = angle in quarter turns (any integer; "no angle" is the encoding of      *)
+(*   k = 0 chosen by the replay harness).                                        *)
+(* Every quantity below is an integer:                                           *)
+(*   lengths / coordinates in quarter-units (1 unit = 4),                        *)
+(*   areas and squared lengths in 1/16 units (quarter x quarter).                *)
+(* No constants: the module is INSTANCEd by Nms.tla.                             *)
 EXTENDS Integers, Sequences, FiniteSets, TLC
 
 Abs(a) == IF a < 0 THEN -a ELSE a
@@ -12,7 +16,7 @@ Max(a, b) == IF a >= b THEN a ELSE b
 Odd(k) == k % 2 = 1                       \* TLA+ % is non-negative for positive modulus
 EW(b) == IF Odd(b.k) THEN b.h ELSE b.w    \* extent along x after rotation (in half-units)
 EH(b) == IF Odd(b.k) THEN b.w ELSE b.h
-(* doubled interval ends: [2c - e, 2c + e] / 4 ... keep everything x2: lo = 2x - ew, hi = 2x + ew (quarter-units) *)
+(* interval ends in quarter-units: centre 2c, half extent e *)
 Lo(c, e) == 2 * c - e
 Hi(c, e) == 2 * c + e
 OverlapLen(c1, e1, c2, e2) == Max(0, Min(Hi(c1, e1), Hi(c2, e2)) - Max(Lo(c1, e1), Lo(c2, e2)))
@@ -20,7 +24,8 @@ OverlapLen(c1, e1, c2, e2) == Max(0, Min(Hi(c1, e1), Hi(c2, e2)) - Max(Lo(c1, e1
 Inter16(a, b) == OverlapLen(a.x, EW(a), b.x, EW(b)) * OverlapLen(a.y, EH(a), b.y, EH(b))
 Area16(b) == 4 * b.w * b.h                (* (w/2)(h/2) = wh/4 -> x16 = 4wh *)
 Union16(a, b) == Area16(a) + Area16(b) - Inter16(a, b)
-(* IoU = Inter16 / Union16 (exact rational) ; absent iff Inter16 = 0 *)
+(* IoU as an exact rational <<numerator, denominator>>; absent iff the numerator is 0 *)
+IoU(a, b) == <<Inter16(a, b), Union16(a, b)>>
 
 (* bounding radius^2 in 1/16 units: (w/4)^2 + (h/4)^2 -> x16 = w^2 + h^2 *)
 R16(b) == b.w * b.w + b.h * b.h
@@ -32,21 +37,95 @@ Touching(a, b) == LET lhs == D16(a, b) - R16(a) - R16(b) IN lhs > 0 /\ lhs * lhs
 
 Translate(b, dx, dy) == [b EXCEPT !.x = @ + dx, !.y = @ + dy]
 Turn(b) == [b EXCEPT !.x = -b.y, !.y = b.x, !.k = @ + 1]          \* quarter turn about the origin
-(* vertices in half-units x2 (quarter-units), as a set *)
+(* vertices in quarter-units, as a set (extent form) *)
 Vertices(b) == {<<2 * b.x + sx * EW(b), 2 * b.y + sy * EH(b)>> : sx \in {-1, 1}, sy \in {-1, 1}}
 
-(* exclusively owned share of box i in a sequence of axis-aligned (even k) boxes, by cell counting:
-   cells are quarter-unit squares indexed by their lower-left corner                               *)
+(* ---- relative position of two boxes, from the interval ends only (independent of Inter16) ---- *)
+SepX(a, b) == Hi(a.x, EW(a)) <= Lo(b.x, EW(b)) \/ Hi(b.x, EW(b)) <= Lo(a.x, EW(a))
+SepY(a, b) == Hi(a.y, EH(a)) <= Lo(b.y, EH(b)) \/ Hi(b.y, EH(b)) <= Lo(a.y, EH(a))
+DisjointOrTouching(a, b) == SepX(a, b) \/ SepY(a, b)
+GapX(a, b) == Hi(a.x, EW(a)) < Lo(b.x, EW(b)) \/ Hi(b.x, EW(b)) < Lo(a.x, EW(a))
+GapY(a, b) == Hi(a.y, EH(a)) < Lo(b.y, EH(b)) \/ Hi(b.y, EH(b)) < Lo(a.y, EH(a))
+StrictlyDisjoint(a, b) == GapX(a, b) \/ GapY(a, b)
+ContactOnly(a, b) == DisjointOrTouching(a, b) /\ ~StrictlyDisjoint(a, b)      \* common boundary points, no common area
+Inside(a, b) == /\ Lo(b.x, EW(b)) <= Lo(a.x, EW(a)) /\ Hi(a.x, EW(a)) <= Hi(b.x, EW(b))     \* a is contained in b
+                /\ Lo(b.y, EH(b)) <= Lo(a.y, EH(a)) /\ Hi(a.y, EH(a)) <= Hi(b.y, EH(b))
+SameRectangle(a, b) == Inside(a, b) /\ Inside(b, a)
+(* some side of a lies on the same line as some side of b *)
+SharedEdgeLine(a, b) == \/ {Lo(a.x, EW(a)), Hi(a.x, EW(a))} \cap {Lo(b.x, EW(b)), Hi(b.x, EW(b))} # {}
+                        \/ {Lo(a.y, EH(a)), Hi(a.y, EH(a))} \cap {Lo(b.y, EH(b)), Hi(b.y, EH(b))} # {}
+Class(a, b) == IF SameRectangle(a, b) THEN "identical"
+               ELSE IF StrictlyDisjoint(a, b) THEN "disjoint"
+               ELSE IF DisjointOrTouching(a, b) THEN "contact"
+               ELSE IF Inside(a, b) \/ Inside(b, a) THEN "nested"
+               ELSE "partial"
+
+(* ---- the polygon of a box: the rectangle of that size rotated by k quarter turns about the centre ---- *)
+RotQ(v, k) == LET m == k % 4 IN
+              IF m = 0 THEN v ELSE IF m = 1 THEN <<-v[2], v[1]>> ELSE IF m = 2 THEN <<-v[1], -v[2]>> ELSE <<v[2], -v[1]>>
+Corners(b) == <<<<-b.w, b.h>>, <<b.w, b.h>>, <<b.w, -b.h>>, <<-b.w, -b.h>>>>    \* relative to the centre, quarter-units
+VertexSeq(b) == [i \in 1..4 |-> LET r == RotQ(Corners(b)[i], b.k) IN <<2 * b.x + r[1], 2 * b.y + r[2]>>]
+Centre4(b) == <<2 * b.x, 2 * b.y>>                                               \* quarter-units
+Shoelace2(p) == LET n == Len(p)
+                    t(i) == LET j == (i % n) + 1 IN p[i][1] * p[j][2] - p[j][1] * p[i][2]
+                    s == t(1) + t(2) + t(3) + t(4) IN Abs(s)                     \* twice the area (4 vertices)
+Dist16(u, v) == (u[1] - v[1]) * (u[1] - v[1]) + (u[2] - v[2]) * (u[2] - v[2])
+
+(* ---- left-top-width-height <-> centre / aspect / height (boxes without angle) ---- *)
+ToLtwh(b) == [l |-> 2 * b.x - b.w, t |-> 2 * b.y - b.h, w |-> 2 * b.w, h |-> 2 * b.h]      \* quarter-units
+FromLtwh(r) == [x |-> (2 * r.l + r.w) \div 4, y |-> (2 * r.t + r.h) \div 4, w |-> r.w \div 2, h |-> r.h \div 2, k |-> 0]
+Aspect(b) == <<b.w, b.h>>                                                         \* exact rational w / h
+(* closed form on two left-top-width-height boxes (1/16 units) *)
+AAInter16(p, q) == Max(0, Min(p.l + p.w, q.l + q.w) - Max(p.l, q.l)) * Max(0, Min(p.t + p.h, q.t + q.h) - Max(p.t, q.t))
+
+(* ---- exclusively owned share of box i in a sequence of boxes (any quarter-turn angles), by cell
+   counting: cells are quarter-unit squares indexed by their lower-left corner; share = Own / |Cells| ---- *)
 Cells(b) == {<<cx, cy>> \in (Lo(b.x, EW(b))..(Hi(b.x, EW(b)) - 1)) \X (Lo(b.y, EH(b))..(Hi(b.y, EH(b)) - 1)) : TRUE}
 Own(bs, i) == Cardinality(Cells(bs[i]) \ UNION {Cells(bs[j]) : j \in DOMAIN bs \ {i}})
-(* share = Own / |Cells| *)
 
-(* ---- algebraic facts TLC checks over an alphabet of boxes ---- *)
-Symmetric(a, b) == Inter16(a, b) = Inter16(b, a)
-Bounded(a, b) == 0 <= Inter16(a, b) /\ Inter16(a, b) <= Min(Area16(a), Area16(b))
-SelfOne(a) == Inter16(a, a) = Area16(a)
+(* ---- angle normalisation on a lattice of n-th parts of a full turn: angle k * (2 pi / n) ---- *)
+NormTurn(k, n) == k % n
+
+(* ================= algebraic facts TLC checks over an alphabet of boxes ================= *)
+(* C08 *)
+Symmetric(a, b) == Inter16(a, b) = Inter16(b, a) /\ IoU(a, b) = IoU(b, a)
+Bounded(a, b) == /\ 0 <= Inter16(a, b) /\ Inter16(a, b) <= Min(Area16(a), Area16(b))
+                 /\ Union16(a, b) > 0 /\ Inter16(a, b) <= Union16(a, b)                    \* IoU in [0, 1]
+SelfOne(a) == Inter16(a, a) = Area16(a) /\ IoU(a, a)[1] = IoU(a, a)[2]
+IdenticalOne(a, b) == SameRectangle(a, b) <=> IoU(a, b)[1] = IoU(a, b)[2]                  \* IoU = 1 exactly for the same rectangle
+AbsentIffNoOverlap(a, b) == Inter16(a, b) = 0 <=> DisjointOrTouching(a, b)
 RigidInvariant(a, b) == /\ Inter16(Translate(a, 3, -5), Translate(b, 3, -5)) = Inter16(a, b)
                         /\ Inter16(Turn(a), Turn(b)) = Inter16(a, b)
+                        /\ TooFar(Turn(a), Turn(b)) = TooFar(a, b) /\ TooFar(Translate(a, 3, -5), Translate(b, 3, -5)) = TooFar(a, b)
+ClosedFormAgrees(a, b) == (a.k % 2 = 0 /\ b.k % 2 = 0) => AAInter16(ToLtwh(a), ToLtwh(b)) = Inter16(a, b)
 PrefilterSound(a, b) == Inter16(a, b) > 0 => ~TooFar(a, b)
-CellsAgree(a, b) == (~Odd(a.k) /\ ~Odd(b.k)) => Cardinality(Cells(a) \cap Cells(b)) = Inter16(a, b)
+CellsAgree(a, b) == Cardinality(Cells(a) \cap Cells(b)) = Inter16(a, b)
+PairFacts(a, b) == /\ Symmetric(a, b) /\ Bounded(a, b) /\ SelfOne(a) /\ IdenticalOne(a, b) /\ AbsentIffNoOverlap(a, b)
+                   /\ RigidInvariant(a, b) /\ ClosedFormAgrees(a, b) /\ PrefilterSound(a, b) /\ CellsAgree(a, b)
+(* C19 *)
+PolygonIsRotatedRectangle(b) ==
+  LET p == VertexSeq(b) IN
+  /\ {p[i] : i \in 1..4} = Vertices(b)                                  \* rotation form = extent form
+  /\ Shoelace2(p) = 2 * Area16(b)                                       \* the polygon has the box's area
+  /\ p[1][1] + p[2][1] + p[3][1] + p[4][1] = 4 * Centre4(b)[1]          \* ... its centre
+  /\ p[1][2] + p[2][2] + p[3][2] + p[4][2] = 4 * Centre4(b)[2]
+  /\ \A i \in 1..4 : Dist16(p[i], Centre4(b)) = R16(b)                  \* ... its bounding radius
+  /\ Vertices([b EXCEPT !.k = NormTurn(b.k, 4)]) = Vertices(b)          \* only the angle modulo a full turn matters
+RoundTrip(b) == /\ FromLtwh(ToLtwh(b)) = [b EXCEPT !.k = 0]
+                /\ ToLtwh(FromLtwh(ToLtwh(b))) = ToLtwh(b)
+                /\ ToLtwh(b).w * b.h = ToLtwh(b).h * b.w                 \* aspect = width / height
+NormFacts(k, n) == /\ NormTurn(k, n) \in 0..(n - 1)
+                   /\ \E m \in -((Abs(k) \div n) + 1)..((Abs(k) \div n) + 1) : k = NormTurn(k, n) + m * n      \* equivalent angle
+                   /\ NormTurn(NormTurn(k, n), n) = NormTurn(k, n)
+                   /\ NormTurn(k + n, n) = NormTurn(k, n)
+(* C15 *)
+Perms(S) == {f \in [S -> S] : \A i, j \in S : f[i] = f[j] => i = j}
+OwnFacts(bs) ==
+  LET D == DOMAIN bs IN
+  /\ \A i \in D : /\ 0 <= Own(bs, i) /\ Own(bs, i) <= Cardinality(Cells(bs[i]))                              \* share in [0, 1]
+                  /\ Cardinality(Cells(bs[i])) = Area16(bs[i])
+                  /\ (Own(bs, i) = Area16(bs[i])) <=> (\A j \in D \ {i} : Inter16(bs[i], bs[j]) = 0)        \* 1 iff overlapping nothing
+                  /\ (\E j \in D \ {i} : Inside(bs[i], bs[j])) => Own(bs, i) = 0                             \* 0 when covered
+  /\ \A p \in Perms(D) : \A i \in D : Own([j \in D |-> bs[p[j]]], i) = Own(bs, p[i])                        \* order independence
+  /\ (Len(bs) = 2) => Own(bs, 1) = Area16(bs[1]) - Inter16(bs[1], bs[2])
 =============================================================================
